@@ -20,7 +20,7 @@ import collections, concurrent.futures, functools, itertools, os, re, subprocess
 from vlib import paths
 from vlib.proto import hexs, unhex
 
-LEAN_TARGETS = ["LyModel.Props.C18"]
+LEAN_TARGETS = ["LyModel.Props.C18", "LyModel.Props.C18Parse", "LyModel.Props.C18Sem"]
 AUDIT = "Audit/C18.lean"
 GENERATED = ["UBlocks", "XsdUcd"]
 ASSUMPTIONS = [
